@@ -613,17 +613,19 @@ Variable cfg : sw_config.
 Notation c := (c05_sw_cfg cfg).
 Notation erase := (c05_erase Swift (c05_sw_cfg cfg)).
 
-(* whenever the variant is produced at all (its name may make to_camel_case panic: C07) *)
-Theorem C05_site_sw_payload sh t vsh st v st' :
+(* the payload of a tuple variant: the variant is always produced (to_camel_case cannot fail since its
+   /repo fix, C07) and its payload type is the translation *)
+Theorem C05_site_sw_payload sh t vsh :
   dom_C05 t = true -> known_C05 Swift c (egenerics sh) t = None ->
-  sw_variant_of uc cfg sh (VTuple t vsh) st = Ok (v, st') ->
-  exists esc opt, swv_payload v = SWPTuple (erase (egenerics sh) t) esc opt.
+  forall st, exists v st', sw_variant_of uc cfg sh (VTuple t vsh) st = Ok (v, st') /\
+    exists esc opt, swv_payload v = SWPTuple (erase (egenerics sh) t) esc opt.
 Proof.
-  intros Hd Hk H. unfold sw_variant_of in H. unfold mbind at 1 in H.
-  destruct (sw_lift _ st) as [[camel s1]| |]; try discriminate.
-  unfold mbind at 1 in H. unfold mbind at 1 in H.
-  destruct (C05_fmt_sw cfg (egenerics sh) t Hd Hk s1) as [s2 E]. rewrite E in H.
-  unfold ret in H. injection H as <- _. cbn [swv_payload]. eauto.
+  intros Hd Hk st. unfold sw_variant_of. unfold mbind at 1.
+  cbn [variant_shared]. unfold Model.Rename.to_camel_case.
+  destruct (Model.Rename.to_pascal_case (original (vid vsh))) as [|c0 r0]; cbn [sw_lift];
+    (unfold mbind at 1; unfold mbind at 1;
+     destruct (C05_fmt_sw cfg (egenerics sh) t Hd Hk st) as [s2 E]; rewrite E;
+     unfold ret; do 2 eexists; (split; [reflexivity|]); cbn [swv_payload]; eauto).
 Qed.
 End SW2.
 
